@@ -53,7 +53,7 @@ FINISH = dict(level="proof",
               rule="cases = (seed,n,d,batch size) data sets, each run through every listed parallel routine with 1,2,3,4,8,16 "
                    "threads x reps; distinct = distinct case parameters; non-trivial = more than one batch (so that work is actually split)")
 LAKE_TARGETS = ["SharkVerif.Props.C20"]
-SRC = ["src/Core/Random.cpp"]
+SRC = ["src/Core/Random.cpp", "src/Models/RBFLayer.cpp"]
 
 
 def translate(ctx):
@@ -81,7 +81,7 @@ def build_tsan(ctx):
     """clang-14 + libomp + Archer ThreadSanitizer build (not cached by dependency hash: rebuilt when sources are newer)"""
     inc = ctx.shark_h()
     exe = os.path.join(core.CACHE, "bin", "c20_tsan")
-    src = [os.path.join(core.VERIF, "harness", "c20.cpp"), os.path.join(core.REPO, "src/Core/Random.cpp")]
+    src = [os.path.join(core.VERIF, "harness", "c20.cpp")] + [os.path.join(core.REPO, x) for x in SRC]
     key = core.sha("".join(core.file_sha(s) for s in src) + subprocess.run(
         ["git", "-C", core.REPO, "status", "--porcelain", "--untracked-files=no"], capture_output=True, text=True).stdout +
         subprocess.run(["git", "-C", core.REPO, "rev-parse", "HEAD"], capture_output=True, text=True).stdout +
@@ -253,9 +253,9 @@ def run(ctx):
             md = [c for c in md if c]
             if core.correspond(ctx, "c20-model-dynamic", md, [dyn], [drv], classify, env=e, keep_prefix=0):
                 found = True
-    ncases, reps = (10, 2) if ctx.quick else (60, 3)
+    ncases, reps = (20, 2) if ctx.quick else (100, 3)
     if broken_tie:
-        ncases, reps = ncases * 2, reps * 3      # search harder for a failing schedule
+        ncases, reps = max(ncases, 30), max(reps, 3)      # search harder for a failing schedule (quick tier: more cases and repetitions)
     # corpus first: minimised past failures (case lines go through the sweep, `dropout` lines to ThreadSanitizer)
     corpus_cases, corpus_tsan = [], []
     cdir = os.path.join(core.VERIF, "corpus", "C20")
@@ -280,7 +280,7 @@ def run(ctx):
         if report_fails(ctx, binary, fails, tag): found = True
     # ---- ThreadSanitizer (clang + libomp + Archer): every run, more cases in the thorough tier / after a broken tie
     if tsan:
-        tc = gen_cases(ctx, 3 if (ctx.quick and not broken_tie) else 12, 1, "tsan") + (corpus_tsan or ["dropout 4"])
+        tc = gen_cases(ctx, 5 if (ctx.quick and not broken_tie) else 16, 1, "tsan") + (corpus_tsan or ["dropout 4"])
         env = {"TSAN_OPTIONS": "ignore_noninstrumented_modules=1 halt_on_error=0 exitcode=0", "OMP_NUM_THREADS": "4"}
         rc2, lines2, err2, fails2 = run_sweep(ctx, tsan, tc, "tsan", env=env, timeout=3000)
         races = re.findall(r"WARNING: ThreadSanitizer: data race.*?(?=\n=+\n|\Z)", err2, flags=re.S)
